@@ -211,18 +211,32 @@ class LeanSide:
             self.build_log += out[-3000:]
         return res
 
-    def grep_forbidden(self):
-        hits = []
-        for root, _, files in os.walk(LEAN):
-            if '.lake' in root:
+    @staticmethod
+    def import_closure(modules):
+        """transitive `import Pycel.*` closure of the given Lean modules -> list of source paths"""
+        seen, todo, paths = set(), list(modules), []
+        while todo:
+            m = todo.pop()
+            if m in seen:
                 continue
-            for f in files:
-                if not f.endswith('.lean'):
-                    continue
+            seen.add(m)
+            path = os.path.join(LEAN, *m.split('.')) + '.lean'
+            if not os.path.exists(path):
+                continue
+            paths.append(path)
+            for line in open(path, encoding='utf-8'):
+                mm = re.match(r'\s*(?:public\s+)?import\s+((?:Pycel|Drivers)\.[\w.]+)', line)
+                if mm:
+                    todo.append(mm.group(1))
+        return sorted(paths)
+
+    def grep_forbidden(self, modules):
+        """forbidden tokens in the Lean sources this property depends on (comments discarded)"""
+        hits = []
+        for path in self.import_closure(modules):
                 in_block = 0
-                for i, line in enumerate(open(os.path.join(root, f), encoding='utf-8'), 1):
+                for i, line in enumerate(open(path, encoding='utf-8'), 1):
                     code = line
-                    # strip block comments (no nesting tricks needed for our sources) and line comments
                     out = ''
                     j = 0
                     while j < len(code):
@@ -239,9 +253,12 @@ class LeanSide:
                         else:
                             out += code[j]
                             j += 1
+                    # string literals cannot hide a proof hole; drop them so that text such as "sorry" is not flagged
+                    out = re.sub(r'"(?:[^"\\]|\\.)*"', '""', out)
                     if FORBIDDEN.search(out):
-                        hits.append(f'{os.path.relpath(os.path.join(root, f), LEAN)}:{i}: {line.strip()[:120]}')
+                        hits.append(f'{os.path.relpath(path, LEAN)}:{i}: {line.strip()[:120]}')
         self.forbidden_hits = hits
+        self.sources = [os.path.relpath(p, LEAN) for p in self.import_closure(modules)]
         return hits
 
 
@@ -347,7 +364,7 @@ def main(argv=None):
     else:
         lean.build(mod.LEAN_MODULE, prop_id)
     axioms = lean.audit(prop_id, mod.LEAN_MODULE, mod.THEOREMS)
-    forbidden = lean.grep_forbidden()
+    forbidden = lean.grep_forbidden([mod.LEAN_MODULE, f'Pycel.Drv.{prop_id}'])
     broken_theorems = []
     leancheck = 'not run (quick tier)'
     if args.tier == 'thorough' and lean.props_ok and not args.replay:
@@ -527,6 +544,7 @@ def main(argv=None):
                     'table translator harness/tables.py', 'Lean compiler/runtime executing the model driver',
                 ] + list(getattr(mod, 'TRUSTED', [])),
                 'leanchecker': leancheck,
+                'lean_sources_audited': getattr(lean, 'sources', []),
                 'theorems': {t: ('ok ' + str(ax) if ax is not None else 'NOT CHECKED') for t, ax in axioms.items()},
                 'evaluations': len(results), 'distinct_nontrivial': nontrivial, 'rule': mod.RULE,
                 'samples': samples,
